@@ -330,5 +330,10 @@ func timeOfView(v string, adj bool) (time.Time, error) {
 // e.g. the view "string_201901" would return "201901".
 func viewTimePart(v string) string {
 	parts := strings.Split(v, "_")
+	if len(parts) < 2 {
+		// A view without a time suffix (e.g. "standard", which happens to be
+		// 8 characters long like a YYYYMMDD suffix) has no time part.
+		return ""
+	}
 	return parts[len(parts)-1]
 }
